@@ -43,8 +43,17 @@ Canonical(k, s) ==
     [] k = "compound"     -> s \in {"emptyList", "intList", "listOfLeafObj"}
     [] k = "enum"         -> s \in {"null", "str"}
 
+\* C10: a scalar the declared type has no lexical form for.  The decoder keeps it (as its lexical form) with a
+\* ConverterWarning, or fails with ParserError when conversion warnings are configured to fail.
+Unconvertible(k, s) ==
+  CASE k \in {"int", "nillableInt", "requiredInt"} -> s \in {"true", "float", "str"}
+    [] k \in {"intList", "tokens"}                 -> s \in {"strList"}
+    [] k = "enum"                                   -> s \in {"true", "int", "float", "numstr"}
+    [] OTHER                                        -> FALSE
+
 \* sanity of the table itself (checked by TLC): every kind has a canonical shape, required fields never accept null
 TableSane == /\ \A k \in Kinds : \E s \in Shapes : Canonical(k, s)
              /\ ~Canonical("requiredInt", "null")
+             /\ \A k \in Kinds, s \in Shapes : ~(Canonical(k, s) /\ Unconvertible(k, s))
              /\ \A k \in {"intList", "tokens", "tokenLists", "modelList", "wildcardList", "compound"} : Canonical(k, "emptyList") /\ ~Canonical(k, "null")
 =============================================================================
